@@ -442,6 +442,9 @@ func flatComps(t types.Type) []Comp {
 		var out []Comp
 		for i := 0; i < st.NumFields(); i++ {
 			f := st.Field(i)
+			if isInterior(f.Type()) {
+				continue
+			}
 			for _, c := range flatComps(f.Type()) {
 				c.Path = "." + f.Name() + c.Path
 				out = append(out, c)
@@ -457,6 +460,73 @@ func flatComps(t types.Type) []Comp {
 		return out
 	}
 	return []Comp{{"", "Int", t, "int"}}
+}
+
+// Interior objects. A struct-typed field whose type is a recursive node type (a named struct with a pointer field to
+// itself, e.g. the sentinel "root DNode" of a list) has its address taken and stored in the heap. It is modelled as a
+// separate object of the node type allocated in one block with its owner: for an owner reference r, the object of
+// the i-th such field is r + i (i = 1..K). Allocating the owner reserves r..r+K; symbolic owner references satisfy
+// r + K < alloc. Copying an owner struct by value is not supported.
+func isInterior(ft types.Type) bool {
+	n, ok := ft.(*types.Named)
+	if !ok {
+		return false
+	}
+	s, ok := n.Underlying().(*types.Struct)
+	if !ok {
+		return false
+	}
+	for i := 0; i < s.NumFields(); i++ {
+		if p, ok := s.Field(i).Type().(*types.Pointer); ok {
+			if pn, ok := p.Elem().(*types.Named); ok && pn.Origin() == n.Origin() {
+				return true
+			}
+		}
+	}
+	return false
+}
+
+// interiorIndex: 1-based ordinal of the interior field among the interior fields of structT (0: not interior).
+func interiorIndex(structT types.Type, field string) int {
+	s, ok := structT.Underlying().(*types.Struct)
+	if !ok {
+		return 0
+	}
+	k := 0
+	for i := 0; i < s.NumFields(); i++ {
+		if isInterior(s.Field(i).Type()) {
+			k++
+			if s.Field(i).Name() == field {
+				return k
+			}
+		}
+	}
+	return 0
+}
+
+func interiorCount(structT types.Type) int {
+	s, ok := structT.Underlying().(*types.Struct)
+	if !ok {
+		return 0
+	}
+	k := 0
+	for i := 0; i < s.NumFields(); i++ {
+		if isInterior(s.Field(i).Type()) {
+			k++
+		}
+	}
+	return k
+}
+
+// refBlock: number of extra references reserved behind a reference of pointer type t.
+func refBlock(t types.Type) int {
+	if t == nil {
+		return 0
+	}
+	if p, ok := t.Underlying().(*types.Pointer); ok {
+		return interiorCount(p.Elem())
+	}
+	return 0
 }
 
 func flatten(v Val) []string {
@@ -496,6 +566,10 @@ func unflat1(t types.Type, terms []string) (Val, []string) {
 		st := t.Underlying().(*types.Struct)
 		v := Val{K: KStruct, T: t}
 		for i := 0; i < st.NumFields(); i++ {
+			if isInterior(st.Field(i).Type()) {
+				v.Sub = append(v.Sub, Val{K: KUnit, T: st.Field(i).Type()})
+				continue
+			}
 			var f Val
 			f, terms = unflat1(st.Field(i).Type(), terms)
 			v.Sub = append(v.Sub, f)
